@@ -65,8 +65,13 @@ def bytesToWords (a : Fin 8) (bytes : List Byte) : Outcome (List Word) :=
   else if bytes.length % 8 ≠ 0 then .panic                     -- assert!(len % 8 == 0) (documented)
   else castSliceU8U64 a bytes
 
-/-- `binary::bytes_to_words_vec` = `bytes_to_words(bytes).to_vec()` -/
-def bytesToWordsVec (a : Fin 8) (bytes : List Byte) : Outcome (List Word) := bytesToWords a bytes
+/-- `binary::bytes_to_words_vec` (after fix b9692bb): same empty / length checks, then
+`bytes.chunks_exact(8).map(|c| u64::from_ne_bytes(c)).collect()` — a copy, which never looks at the
+address: the misalignment `_a` is irrelevant. -/
+def bytesToWordsVec (_a : Fin 8) (bytes : List Byte) : Outcome (List Word) :=
+  if bytes.isEmpty then .ok []                                  -- return Vec::new()
+  else if bytes.length % 8 ≠ 0 then .panic                     -- assert!(len % 8 == 0) (documented)
+  else .ok (reinterpret bytes)                                  -- chunks_exact(8) + from_ne_bytes
 
 /-- `binary::try_bytes_to_words` -/
 def tryBytesToWords (a : Fin 8) (bytes : List Byte) : Outcome (Option (List Word)) :=
